@@ -175,6 +175,10 @@ class Harness:
     def sage(self):
         from ixai.explainer.sage import IncrementalSage
         c = self.cfg
+        if c.get('library_defaults'):
+            # default storage (reservoir of 100) and default imputer (marginal joint) created by the explainer itself
+            return IncrementalSage(self.model, self.loss, list(self.names), n_inner_samples=c['n_inner'], smoothing_alpha=self.alpha,
+                                   dynamic_setting=c['dynamic'], loss_bigger_is_better=c['lbib'])
         return IncrementalSage(self.model, self.loss, list(self.names), storage=self.storage, imputer=self.imputer,
                                n_inner_samples=c['n_inner'], smoothing_alpha=self.alpha, dynamic_setting=c['dynamic'],
                                loss_bigger_is_better=c['lbib'])
